@@ -609,6 +609,56 @@ def c_slot_labels(pkg_dir, rel, func, defines):
     return labels
 
 
+# ------------------------------------------------------------------ process status codes / zombie probe
+
+
+def status_tables(emu, tree):
+    """(all native status-code names, the ones mapped to STATUS_ZOMBIE) of the PROC_STATUSES dict that is live in the
+    module loaded as this identity. Names come from the dict literal(s) in the source (`cext.<NAME>: _common.STATUS_…`);
+    the live one is the literal whose evaluation equals the module's runtime dict."""
+    live = getattr(emu.mod, "PROC_STATUSES", None)
+    if live is None:
+        return [], []
+    cext = getattr(emu.mod, "cext")
+    for n in ast.walk(tree):
+        if isinstance(n, ast.Assign) and len(n.targets) == 1 and extract.dotted(n.targets[0]) == "PROC_STATUSES" \
+                and isinstance(n.value, ast.Dict):
+            names, zomb, ev = [], [], {}
+            ok = True
+            for k, v in zip(n.value.keys, n.value.values):
+                kd, vd = extract.dotted(k), extract.dotted(v)
+                if not kd.startswith("cext.") or not vd.startswith("_common.STATUS_") or not hasattr(cext, kd[5:]):
+                    ok = False
+                    break
+                names.append(kd[5:])
+                ev[getattr(cext, kd[5:])] = getattr(emu.common, vd[len("_common."):], None)
+                if vd == "_common.STATUS_ZOMBIE":
+                    zomb.append(kd[5:])
+            if ok and ev == dict(live) and len(ev) == len(names):
+                return sorted(names), sorted(zomb)
+    raise NotRecognised("PROC_STATUSES literal of %s not recognised" % emu.ident)
+
+
+def zombie_probe(tree, oneshot):
+    """shape of the comparison in `is_zombie(pid)`: 'procStatuses' (PROC_STATUSES.get(st) == _common.STATUS_ZOMBIE)
+    or 'eq:<NAME>' (st == cext.<NAME>); the rest of the function must be the known frame"""
+    fn = extract.find_def(tree, "is_zombie")
+    src = extract.unparse(fn)
+    if "st = cext.%s(pid)[kinfo_proc_map['status']]" % oneshot not in src or not re.search(
+            r"except OSError:\s+return False", src):
+        raise NotRecognised("is_zombie frame")
+    rets = [n for n in ast.walk(fn) if isinstance(n, ast.Return) and not (isinstance(n.value, ast.Constant))]
+    if len(rets) != 1:
+        raise NotRecognised("is_zombie returns")
+    u = extract.unparse(rets[0].value)
+    if u == "PROC_STATUSES.get(st) == _common.STATUS_ZOMBIE":
+        return "procStatuses"
+    m = re.fullmatch(r"st == cext\.(\w+)", u)
+    if m:
+        return "eq:" + m.group(1)
+    raise NotRecognised("is_zombie comparison %s" % u)
+
+
 # ------------------------------------------------------------------ front-end platform branches
 
 PLATFORM_NAMES = {"LINUX", "WINDOWS", "OSX", "MACOS", "BSD", "FREEBSD", "OPENBSD", "NETBSD", "SUNOS", "AIX", "POSIX"}
